@@ -13,27 +13,49 @@ def atomOf (c : Token) : Option Expr :=
   | .FALSE => some (.bool c false)
   | _ => none
 
-/-- source-level expression trees: atoms and binary operators (token `o`), with the parenthesis tokens
-    that are printed when the context demands them -/
+/-- source-level expression trees: atoms, binary and prefix operators, index expressions and calls of a plain
+    function name, with the parenthesis tokens that are printed when the context demands them; the argument list
+    of a call is spelled with `aone` (the last argument) and `acons` (an argument, a comma, more arguments) -/
 inductive PE
   | atom (c : Token) (x : Expr)
   | bin (o lp rp : Token) (l r : PE)
   | pre (o : Token) (r : PE)
   | idx (lb rb : Token) (l i : PE)
+  | call0 (fn lp rp : Token)
+  | call (fn lp rp : Token) (args : PE)
+  | aone (e : PE)
+  | acons (e : PE) (comma : Token) (rest : PE)
 
-/-- what an index can be applied to without parentheses: an atom or another index (`a[i][j]`) -/
+/-- what an index can be applied to without parentheses: an atom, another index (`a[i][j]`) or a call (`f(x)[i]`) -/
 def PE.isPost : PE → Bool
   | .atom _ _ => true
   | .idx _ _ _ _ => true
+  | .call0 _ _ _ => true
+  | .call _ _ _ _ => true
   | _ => false
 
+/-- the function of a call, as the parser builds it from the name token -/
+def fnExpr (fn : Token) : Expr := .ident { tok := fn, segs := splitOn1 46 fn.lit }
+
+mutual
 def PE.toExpr : PE → Expr
   | .atom _ x => x
   | .bin o _ _ l r => .inf o o.lit (some l.toExpr) (some r.toExpr)
   | .pre o r => .pre o o.lit (some r.toExpr)
   | .idx lb _ l i => .idx lb (some l.toExpr) (some i.toExpr) none none
+  | .call0 fn lp _ => .call lp none none (fnExpr fn) (some []) none
+  | .call fn lp _ a => .call lp none none (fnExpr fn) (some a.toArgs) none
+  | .aone _ => .brk default
+  | .acons _ _ _ => .brk default
+def PE.toArgs : PE → List (Option Expr)
+  | .aone e => [some e.toExpr]
+  | .acons e _ r => some e.toExpr :: r.toArgs
+  | _ => []
+end
 
-/-- well-formed: atoms are atoms, operators are registered binary operators, parentheses are parentheses -/
+mutual
+/-- well-formed EXPRESSION: atoms are atoms, operators are registered operators, parentheses are parentheses, the
+    function of a call is a plain (undotted) name; an argument list is not an expression -/
 def PE.WF : PE → Prop
   | .atom c x => atomOf c = some x
   | .bin o lp rp l r =>
@@ -41,6 +63,16 @@ def PE.WF : PE → Prop
       lp.type = .LPAREN ∧ rp.type = .RPAREN ∧ l.WF ∧ r.WF
   | .pre o r => lookupLast o.type Gen.prefixFns = some .parsePrefixExpression ∧ r.WF
   | .idx lb rb l i => lb.type = .LBRACKET ∧ rb.type = .RBRACKET ∧ l.isPost = true ∧ l.WF ∧ i.WF
+  | .call0 fn lp rp => fn.type = .IDENT ∧ (46 : UInt8) ∉ fn.lit ∧ lp.type = .LPAREN ∧ rp.type = .RPAREN
+  | .call fn lp rp a => fn.type = .IDENT ∧ (46 : UInt8) ∉ fn.lit ∧ lp.type = .LPAREN ∧ rp.type = .RPAREN ∧ a.WFA
+  | .aone _ => False
+  | .acons _ _ _ => False
+/-- well-formed non-empty ARGUMENT LIST -/
+def PE.WFA : PE → Prop
+  | .aone e => e.WF
+  | .acons e c r => e.WF ∧ c.type = .COMMA ∧ r.WFA
+  | _ => False
+end
 
 /-- printing with the minimal parentheses for a context of binding power `p`:
     left operands at the operator's own level (left associative), right operands one level tighter -/
@@ -51,13 +83,21 @@ def pr (p : Nat) : PE → List Token
     if precOf o.type < p then [lp] ++ body ++ [rp] else body
   | .pre o r => o :: pr (Gen.PREFIX + 1) r
   | .idx lb rb l i => pr Gen.INDEX l ++ [lb] ++ pr (Gen.LOWEST + 1) i ++ [rb]
+  | .call0 fn lp rp => [fn, lp, rp]
+  | .call fn lp rp a => [fn, lp] ++ pr 0 a ++ [rp]
+  | .aone e => pr (Gen.LOWEST + 1) e
+  | .acons e c r => pr (Gen.LOWEST + 1) e ++ [c] ++ pr 0 r
 
 theorem pr_ne_nil (p : Nat) (e : PE) : pr p e ≠ [] := by
-  cases e with
+  induction e generalizing p with
   | atom => simp [pr]
   | bin o lp rp l r => simp only [pr]; split <;> simp
   | pre o r => simp [pr]
   | idx lb rb l i => simp [pr]
+  | call0 => simp [pr]
+  | call => simp [pr]
+  | aone e ih => simp only [pr]; exact ih _
+  | acons e c r => simp [pr]
 
 /-- the token array holds `ts` from index `i` on -/
 def At (s : PS) (i : Nat) (ts : List Token) : Prop := ∀ k (h : k < ts.length), tokAt s (i + k) = ts[k]
@@ -176,6 +216,87 @@ theorem index_step (f q : Nat) (l : Expr) (s : PS) (Q : Option Expr → PS → P
   simp only [OK_expectPeek, h1, if_true, Bool.not_true, Bool.false_eq_true, if_false, OK_bind, OK_peekIs, OK_ite, OK_pure, h2', h3']
   exact h4
 
+theorem splitOn1_no_sep : ∀ (l : Bytes), (46 : UInt8) ∉ l → splitOn1 46 l = [l] := by
+  intro l
+  induction l with
+  | nil => intro _; rfl
+  | cons c r ih =>
+    intro h
+    have hc : c ≠ 46 := fun e => h (by rw [e]; exact List.mem_cons_self)
+    have hr : (46 : UInt8) ∉ r := fun e => h (List.mem_cons_of_mem _ e)
+    have hc' : (c == 46) = false := by simpa using hc
+    simp only [splitOn1, hc', Bool.false_eq_true, if_false, ih hr]
+
+theorem pExpr_fnExpr (fn : Token) (h : (46 : UInt8) ∉ fn.lit) : pExpr (fnExpr fn) = fn.lit := by
+  simp [fnExpr, pExpr, Ident.str, splitOn1_no_sep fn.lit h, joinWith]
+
+/-- one turn of the operator loop at `(` after a plain function name: the argument list is parsed up to `)`, and —
+    when neither `{` nor `.` follows — the call node is handed back to the operator loop -/
+theorem call_step (f q : Nat) (fn : Token) (s : PS) (Q : Option Expr → PS → Prop)
+    (hfn : (46 : UInt8) ∉ fn.lit) (hlp : (tokAt s (s.pos + 1)).type = .LPAREN) (hq : q < Gen.CALL)
+    (h : OK (parseExpressionList f .RPAREN) { s with pos := s.pos + 1 } (fun args s' =>
+          ((tokAt s' (s'.pos + 1)).type == TT.LBRACE) = false ∧
+          ((tokAt s' (s'.pos + 1)).type == TT.DOT) = false ∧
+          OK (infixLoop (f+1) q (some (.call (tokAt s (s.pos + 1)) none none (fnExpr fn) args none))) s' Q)) :
+    OK (infixLoop (f+2) q (some (fnExpr fn))) s Q := by
+  rw [infixLoop_eq]
+  have hsemi : ((tokAt s (s.pos + 1)).type == TT.SEMICOLON) = false := by rw [hlp]; decide
+  have hfun : lookupLast (tokAt s (s.pos + 1)).type Gen.infixFns = some .parseCallExpression := by rw [hlp]; decide
+  have hprec : precOf (tokAt s (s.pos + 1)).type = Gen.CALL := by rw [hlp]; decide
+  have hss : ¬ ((splitOn1 46 (pExpr (fnExpr fn))).length > 1) := by
+    rw [pExpr_fnExpr fn hfn, splitOn1_no_sep fn.lit hfn]; simp
+  simp only [OK_bind, OK_peekIs, OK_peekPrecedence, OK_ite, OK_pure, OK_peek, hsemi, hfun, OK_nextTok, runInfix_eq, OK_cur,
+    hprec]
+  simp only [Bool.not_false, Bool.true_and, decide_eq_true_eq, hq, if_true, hss, if_false]
+  refine OK_conseq h ?_
+  intro args s' ⟨h1, h2, h3⟩
+  simp only [OK_bind, OK_peekIs, OK_ite, OK_pure, h1, h2, Bool.false_eq_true, if_false]
+  exact h3
+
+/-- `f()` -/
+theorem exprList_empty (f : Nat) (s : PS) (Q : Option (List (Option Expr)) → PS → Prop)
+    (hr : (tokAt s (s.pos + 1)).type = .RPAREN) (h : Q (some []) { s with pos := s.pos + 1 }) :
+    OK (parseExpressionList (f+1) .RPAREN) s Q := by
+  rw [parseExpressionList_eq]
+  have : ((tokAt s (s.pos + 1)).type == TT.RPAREN) = true := by rw [hr]; rfl
+  simp only [OK_bind, OK_peekIs, OK_ite, this, if_true, OK_nextTok, OK_pure]
+  exact h
+
+/-- `f(a, …)`: the first argument, then the comma loop, then `)` -/
+theorem exprList_nonempty (f : Nat) (s : PS) (Q : Option (List (Option Expr)) → PS → Prop)
+    (hr : (tokAt s (s.pos + 1)).type ≠ .RPAREN)
+    (h : OK (parseExpression f Gen.LOWEST >>= fun e => exprListLoop f [e]) { s with pos := s.pos + 1 } (fun l s' =>
+          ((tokAt s' (s'.pos + 1)).type == TT.RPAREN) = true ∧ Q (some l) { s' with pos := s'.pos + 1 })) :
+    OK (parseExpressionList (f+1) .RPAREN) s Q := by
+  rw [parseExpressionList_eq]
+  have : ((tokAt s (s.pos + 1)).type == TT.RPAREN) = false := by simpa using hr
+  simp only [OK_bind, OK_peekIs, OK_ite, this, Bool.false_eq_true, if_false, OK_nextTok]
+  simp only [OK_bind] at h
+  refine OK_conseq h ?_
+  intro e s1 h1
+  refine OK_conseq h1 ?_
+  intro l s2 ⟨h2, h3⟩
+  simp only [OK_expectPeek, h2, if_true, Bool.not_true, Bool.false_eq_true, if_false, OK_pure]
+  exact h3
+
+/-- the comma loop stops in front of anything but a comma -/
+theorem exprLoop_stops (f : Nat) (acc : List (Option Expr)) (s : PS) (Q : List (Option Expr) → PS → Prop)
+    (hc : (tokAt s (s.pos + 1)).type ≠ .COMMA) (h : Q acc s) : OK (exprListLoop (f+1) acc) s Q := by
+  rw [exprListLoop_eq]
+  have : ((tokAt s (s.pos + 1)).type == TT.COMMA) = false := by simpa using hc
+  simp only [OK_bind, OK_peekIs, OK_ite, this, Bool.false_eq_true, if_false, OK_pure]
+  exact h
+
+/-- … and goes on after a comma -/
+theorem exprLoop_comma (f : Nat) (acc : List (Option Expr)) (s : PS) (Q : List (Option Expr) → PS → Prop)
+    (hc : (tokAt s (s.pos + 1)).type = .COMMA)
+    (h : OK (parseExpression f Gen.LOWEST >>= fun e => exprListLoop f (acc ++ [e])) { s with pos := s.pos + 1 + 1 } Q) :
+    OK (exprListLoop (f+1) acc) s Q := by
+  rw [exprListLoop_eq]
+  have : ((tokAt s (s.pos + 1)).type == TT.COMMA) = true := by rw [hc]; rfl
+  simp only [OK_bind, OK_peekIs, OK_ite, this, if_true, OK_nextTok]
+  simpa only [OK_bind] using h
+
 /-- the state `s` with the cursor at index `i` -/
 def _root_.Plush.PS.at (s : PS) (i : Nat) : PS := { s with pos := i }
 
@@ -188,9 +309,16 @@ theorem rem_at (s : PS) (i : Nat) : rem (s.at i) = s.toks.size - i := rfl
 
 def edge (p : Nat) : PE → Token → Prop
   | .atom _ _, nt => nt.type ≠ .ASSIGN
-  | .bin o _ _ _ _, nt => if precOf o.type < p then True else (precOf nt.type ≤ precOf o.type ∧ nt.type ≠ .ASSIGN ∧ nt.type ≠ .DOT)
+  | .bin o _ _ _ _, nt => if precOf o.type < p then True else (precOf nt.type ≤ precOf o.type ∧ nt.type ≠ .ASSIGN ∧ nt.type ≠ .DOT ∧ nt.type ≠ .LBRACE)
   | .pre _ r, nt => precOf nt.type ≤ Gen.PREFIX ∧ edge (Gen.PREFIX + 1) r nt
   | .idx _ _ _ _, nt => nt.type ≠ .ASSIGN ∧ nt.type ≠ .DOT
+  | .call0 _ _ _, nt => nt.type ≠ .DOT ∧ nt.type ≠ .LBRACE
+  | .call _ _ _ _, nt => nt.type ≠ .DOT ∧ nt.type ≠ .LBRACE
+  | .aone _, _ => True
+  | .acons _ _ _, _ => True
+
+theorem infix_ne_lbrace {t : TT} (h : lookupLast t Gen.infixFns = some .parseInfixExpression) : t ≠ .LBRACE := by
+  intro h0; subst h0; revert h; decide
 
 /-- every registered binary operator binds less tightly than a prefix operator -/
 theorem infix_prec_le {t : TT} (h : lookupLast t Gen.infixFns = some .parseInfixExpression) : precOf t ≤ Gen.PREFIX := by
@@ -203,54 +331,69 @@ theorem infix_ne_assign {t : TT} (h : lookupLast t Gen.infixFns = some .parseInf
   intro h0; subst h0; revert h; decide
 
 /-- what the token that follows a sub-expression must satisfy, derived from: it does not bind tighter than `b`
-    (`b` ≤ PREFIX) and is neither `=` nor `.` -/
+    (`b` ≤ PREFIX) and is none of `=`, `.`, `{` -/
 theorem edge_of_le (e : PE) : ∀ (p b : Nat) (nt : Token), e.WF → b ≤ Gen.PREFIX → precOf nt.type ≤ b → nt.type ≠ .ASSIGN →
-    nt.type ≠ .DOT →
+    nt.type ≠ .DOT → nt.type ≠ .LBRACE →
     (∀ o lp rp l r, e = .bin o lp rp l r → ¬ precOf o.type < p → b ≤ precOf o.type) → edge p e nt := by
   induction e with
-  | atom c x => intro p b nt _ _ _ hna _ _; exact hna
+  | atom c x => intro p b nt _ _ _ hna _ _ _; exact hna
   | bin o lp rp l r _ _ =>
-    intro p b nt _ _ hle hna hnd hb
+    intro p b nt _ _ hle hna hnd hnb hb
     simp only [edge]; split
     · trivial
-    · rename_i hp; exact ⟨Nat.le_trans hle (hb o lp rp l r rfl hp), hna, hnd⟩
+    · rename_i hp; exact ⟨Nat.le_trans hle (hb o lp rp l r rfl hp), hna, hnd, hnb⟩
   | pre o r ih =>
-    intro p b nt hwf hbP hle hna hnd _
-    refine ⟨Nat.le_trans hle hbP, ih (Gen.PREFIX + 1) b nt hwf.2 hbP hle hna hnd ?_⟩
+    intro p b nt hwf hbP hle hna hnd hnb _
+    refine ⟨Nat.le_trans hle hbP, ih (Gen.PREFIX + 1) b nt hwf.2 hbP hle hna hnd hnb ?_⟩
     intro o2 lp2 rp2 l2 r2 he hnp
     subst he
     have := infix_prec_le hwf.2.1
     omega
-  | idx lb rb l i _ _ => intro p b nt _ _ _ hna hnd _; exact ⟨hna, hnd⟩
+  | idx lb rb l i _ _ => intro p b nt _ _ _ hna hnd _ _; exact ⟨hna, hnd⟩
+  | call0 fn lp rp => intro p b nt _ _ _ _ hnd hnb _; exact ⟨hnd, hnb⟩
+  | call fn lp rp a _ => intro p b nt _ _ _ _ hnd hnb _; exact ⟨hnd, hnb⟩
+  | aone e _ => intros; trivial
+  | acons e c r _ _ => intros; trivial
 
-/-- after an operand an index may be applied to, any token other than `=` and `.` may follow -/
-theorem edge_post (e : PE) (p : Nat) (nt : Token) (h : e.isPost = true) (hna : nt.type ≠ .ASSIGN) (hnd : nt.type ≠ .DOT) :
-    edge p e nt := by
+/-- after an operand an index may be applied to, any token other than `=`, `.` and `{` may follow -/
+theorem edge_post (e : PE) (p : Nat) (nt : Token) (h : e.isPost = true) (hna : nt.type ≠ .ASSIGN) (hnd : nt.type ≠ .DOT)
+    (hnb : nt.type ≠ .LBRACE) : edge p e nt := by
   cases e with
   | atom c x => exact hna
   | idx lb rb l i => exact ⟨hna, hnd⟩
+  | call0 => exact ⟨hnd, hnb⟩
+  | call => exact ⟨hnd, hnb⟩
   | bin => cases h
   | pre => cases h
+  | aone => cases h
+  | acons => cases h
 
 theorem atomOf_ne_eof {c : Token} {x : Expr} (h : atomOf c = some x) : c.type ≠ .EOF := by
   intro h0; unfold atomOf at h; rw [h0] at h; cases h
 
-theorem pr_types (e : PE) : ∀ p, e.WF → ∀ t ∈ pr p e, t.type ≠ .EOF := by
+theorem ident_ne_eof : TT.IDENT ≠ TT.EOF := by decide
+
+theorem pr_types' (e : PE) : ∀ p, (e.WF ∨ e.WFA) → ∀ t ∈ pr p e, t.type ≠ .EOF := by
   induction e with
-  | atom c x => intro p h t ht; simp only [pr, List.mem_singleton] at ht; subst ht; exact atomOf_ne_eof h
+  | atom c x =>
+    intro p h t ht
+    rcases h with h | h
+    · simp only [pr, List.mem_singleton] at ht; subst ht; exact atomOf_ne_eof h
+    · simp [PE.WFA] at h
   | bin o lp rp l r ihl ihr =>
     intro p h t ht
+    have h := h.resolve_right (by simp [PE.WFA])
     obtain ⟨hfn, _, hlp, hrp, hl, hr⟩ := h
     have hbody : ∀ t ∈ pr (precOf o.type) l ++ [o] ++ pr (precOf o.type + 1) r, t.type ≠ .EOF := by
       intro t ht
       simp only [List.mem_append, List.mem_singleton] at ht
       rcases ht with (h1 | h1) | h1
-      · exact ihl _ hl t h1
+      · exact ihl _ (Or.inl hl) t h1
       · subst h1; exact infix_ne_eof hfn
-      · exact ihr _ hr t h1
+      · exact ihr _ (Or.inl hr) t h1
     simp only [pr] at ht
     split at ht
-    · simp only [List.mem_append, List.mem_singleton, List.mem_cons, List.not_mem_nil, or_false] at ht
+    · simp only [List.mem_append, List.mem_cons, List.not_mem_nil, or_false] at ht
       rcases ht with (h1 | h1) | h1
       · subst h1; rw [hlp]; decide
       · exact hbody t (by simp only [List.mem_append, List.mem_singleton]; simpa [or_assoc] using h1)
@@ -258,19 +401,57 @@ theorem pr_types (e : PE) : ∀ p, e.WF → ∀ t ∈ pr p e, t.type ≠ .EOF :=
     · exact hbody t ht
   | pre o r ih =>
     intro p h t ht
+    have h := h.resolve_right (by simp [PE.WFA])
     simp only [pr, List.mem_cons] at ht
     rcases ht with h1 | h1
     · subst h1; exact prefix_ne_eof h.1
-    · exact ih _ h.2 t h1
+    · exact ih _ (Or.inl h.2) t h1
   | idx lb rb l i ihl ihi =>
     intro p h t ht
+    have h := h.resolve_right (by simp [PE.WFA])
     obtain ⟨hlb, hrb, _, hl, hi⟩ := h
     simp only [pr, List.mem_append, List.mem_singleton] at ht
     rcases ht with ((h1 | h1) | h1) | h1
-    · exact ihl _ hl t h1
+    · exact ihl _ (Or.inl hl) t h1
     · subst h1; rw [hlb]; decide
-    · exact ihi _ hi t h1
+    · exact ihi _ (Or.inl hi) t h1
     · subst h1; rw [hrb]; decide
+  | call0 fn lp rp =>
+    intro p h t ht
+    have h := h.resolve_right (by simp [PE.WFA])
+    obtain ⟨hfn, _, hlp, hrp⟩ := h
+    simp only [pr, List.mem_cons, List.not_mem_nil, or_false] at ht
+    rcases ht with h1 | h1 | h1
+    · subst h1; rw [hfn]; decide
+    · subst h1; rw [hlp]; decide
+    · subst h1; rw [hrp]; decide
+  | call fn lp rp a iha =>
+    intro p h t ht
+    have h := h.resolve_right (by simp [PE.WFA])
+    obtain ⟨hfn, _, hlp, hrp, ha⟩ := h
+    simp only [pr, List.mem_append, List.mem_cons, List.not_mem_nil, or_false] at ht
+    rcases ht with ((h1 | h1) | h1) | h1
+    · subst h1; rw [hfn]; decide
+    · subst h1; rw [hlp]; decide
+    · exact iha _ (Or.inr ha) t h1
+    · subst h1; rw [hrp]; decide
+  | aone e ih =>
+    intro p h t ht
+    rcases h with h | h
+    · simp [PE.WF] at h
+    · simp only [pr] at ht; exact ih _ (Or.inl h) t ht
+  | acons e c r ihe ihr =>
+    intro p h t ht
+    rcases h with h | h
+    · simp [PE.WF] at h
+    · obtain ⟨he, hc, hr⟩ := h
+      simp only [pr, List.mem_append, List.mem_singleton] at ht
+      rcases ht with (h1 | h1) | h1
+      · exact ihe _ (Or.inl he) t h1
+      · subst h1; rw [hc]; decide
+      · exact ihr _ (Or.inr hr) t h1
+
+theorem pr_types (e : PE) (p : Nat) (h : e.WF) : ∀ t ∈ pr p e, t.type ≠ .EOF := pr_types' e p (Or.inl h)
 
 theorem At_in_range {s : PS} (e : EofOK s) {i : Nat} {ts : List Token} (h : At s i ts)
     (hne : ∀ t ∈ ts, t.type ≠ .EOF) (hnil : ts ≠ []) : i + ts.length ≤ s.toks.size := by
@@ -298,11 +479,77 @@ theorem pr_len_pos (p : Nat) (e : PE) : 0 < (pr p e).length := List.length_pos_i
 def Kont (s : PS) (n q : Nat) (x : Expr) (Q : Option Expr → PS → Prop) : Prop :=
   ∀ f1, 12 + C * rem (s.at (s.pos + n - 1)) ≤ f1 → OK (infixLoop f1 q (some x)) (s.at (s.pos + n - 1)) Q
 
-theorem main (e : PE) : ∀ (q p : Nat) (s : PS) (f : Nat) (Q : Option Expr → PS → Prop),
+/-- the round-trip statement for an expression … -/
+def MainStmt (e : PE) : Prop := ∀ (q p : Nat) (s : PS) (f : Nat) (Q : Option Expr → PS → Prop),
     e.WF → q < p → q ≤ Gen.PREFIX → EofOK s → At s s.pos (pr p e) → edge p e (tokAt s (s.pos + (pr p e).length)) →
-    14 + C * rem s ≤ f → Kont s (pr p e).length q e.toExpr Q → OK (parseExpression f q) s Q := by
+    14 + C * rem s ≤ f → Kont s (pr p e).length q e.toExpr Q → OK (parseExpression f q) s Q
+
+/-- … and for a non-empty argument list: with the cursor on its first token, "parse an expression, then run the
+    comma loop" collects exactly the arguments and stops on the last token in front of the closing parenthesis -/
+def ArgsStmt (a : PE) : Prop := ∀ (s : PS) (f : Nat) (acc : List (Option Expr)) (Q : List (Option Expr) → PS → Prop),
+    a.WFA → EofOK s → At s s.pos (pr 0 a) →
+    ((tokAt s (s.pos + (pr 0 a).length)).type ≠ .COMMA ∧ precOf (tokAt s (s.pos + (pr 0 a).length)).type = Gen.LOWEST ∧
+      (tokAt s (s.pos + (pr 0 a).length)).type ≠ .ASSIGN ∧ (tokAt s (s.pos + (pr 0 a).length)).type ≠ .DOT ∧
+      (tokAt s (s.pos + (pr 0 a).length)).type ≠ .LBRACE) →
+    16 + C * rem s ≤ f → Q (acc ++ a.toArgs) (s.at (s.pos + (pr 0 a).length - 1)) →
+    OK (parseExpression f Gen.LOWEST >>= fun e => exprListLoop f (acc ++ [e])) s Q
+
+theorem atomOf_ident (fn : Token) (h : fn.type = .IDENT) : atomOf fn = some (fnExpr fn) := by
+  simp [atomOf, h, fnExpr]
+
+theorem atomOf_ne_rparen {c : Token} {x : Expr} (h : atomOf c = some x) : c.type ≠ .RPAREN := by
+  intro h0; unfold atomOf at h; rw [h0] at h; cases h
+
+theorem prefix_ne_rparen {t : TT} (h : lookupLast t Gen.prefixFns = some .parsePrefixExpression) : t ≠ .RPAREN := by
+  intro h0; subst h0; revert h; decide
+
+/-- an expression (and an argument list) never starts with `)` -/
+theorem pr_head (e : PE) : ∀ p, (e.WF ∨ e.WFA) → ∃ t rest, pr p e = t :: rest ∧ t.type ≠ .RPAREN := by
   induction e with
   | atom c x =>
+    intro p h
+    have h := h.resolve_right (by simp [PE.WFA])
+    exact ⟨c, [], rfl, atomOf_ne_rparen h⟩
+  | bin o lp rp l r ihl _ =>
+    intro p h
+    have h := h.resolve_right (by simp [PE.WFA])
+    obtain ⟨_, _, hlp, _, hl, _⟩ := h
+    obtain ⟨t, rest, ht, hne⟩ := ihl (precOf o.type) (Or.inl hl)
+    simp only [pr]
+    split
+    · exact ⟨lp, _, rfl, by rw [hlp]; decide⟩
+    · exact ⟨t, rest ++ [o] ++ pr (precOf o.type + 1) r, by rw [ht]; simp, hne⟩
+  | pre o r _ =>
+    intro p h
+    have h := h.resolve_right (by simp [PE.WFA])
+    exact ⟨o, _, rfl, prefix_ne_rparen h.1⟩
+  | idx lb rb l i ihl _ =>
+    intro p h
+    have h := h.resolve_right (by simp [PE.WFA])
+    obtain ⟨t, rest, ht, hne⟩ := ihl Gen.INDEX (Or.inl h.2.2.2.1)
+    exact ⟨t, rest ++ [lb] ++ pr (Gen.LOWEST + 1) i ++ [rb], by simp only [pr]; rw [ht]; simp, hne⟩
+  | call0 fn lp rp =>
+    intro p h
+    have h := h.resolve_right (by simp [PE.WFA])
+    exact ⟨fn, _, rfl, by rw [h.1]; decide⟩
+  | call fn lp rp a _ =>
+    intro p h
+    have h := h.resolve_right (by simp [PE.WFA])
+    exact ⟨fn, _, rfl, by rw [h.1]; decide⟩
+  | aone e ih =>
+    intro p h
+    have h := h.resolve_left (by simp [PE.WF])
+    simpa only [pr] using ih (Gen.LOWEST + 1) (Or.inl h)
+  | acons e c r ihe _ =>
+    intro p h
+    have h := h.resolve_left (by simp [PE.WF])
+    obtain ⟨t, rest, ht, hne⟩ := ihe (Gen.LOWEST + 1) (Or.inl h.1)
+    exact ⟨t, rest ++ [c] ++ pr 0 r, by simp only [pr]; rw [ht]; simp, hne⟩
+
+theorem main_both (e : PE) : MainStmt e ∧ ArgsStmt e := by
+  induction e with
+  | atom c x =>
+    refine ⟨?_, fun s f acc Q h => by simp [PE.WFA] at h⟩
     intro q p s f Q hwf hqp hqP eo hat hedge hf K
     obtain ⟨f', rfl⟩ : ∃ f', f = f' + 2 := ⟨f - 2, by simp only [C] at hf; omega⟩
     have h0 := hat 0 (by simp [pr])
@@ -314,6 +561,9 @@ theorem main (e : PE) : ∀ (q p : Nat) (s : PS) (f : Nat) (Q : Option Expr → 
     · have := K (f' + 1) (by simp only [pr, List.length_singleton, Nat.add_sub_cancel, at_self]; simp only [C] at hf ⊢; omega)
       simpa [pr, at_self, PE.toExpr] using this
   | bin o lp rp l r ihl ihr =>
+    refine ⟨?_, fun s f acc Q h => by simp [PE.WFA] at h⟩
+    have ihl := ihl.1
+    have ihr := ihr.1
     intro q0 p s0 f0 Q0 hwf
     obtain ⟨hfn, hlow, hlp, hrp, hwl, hwr⟩ := hwf
     -- the unparenthesised body  l o r
@@ -321,7 +571,8 @@ theorem main (e : PE) : ∀ (q p : Nat) (s : PS) (f : Nat) (Q : Option Expr → 
         At s s.pos (pr (precOf o.type) l ++ [o] ++ pr (precOf o.type + 1) r) →
         (precOf (tokAt s (s.pos + (pr (precOf o.type) l ++ [o] ++ pr (precOf o.type + 1) r).length)).type ≤ precOf o.type ∧
           (tokAt s (s.pos + (pr (precOf o.type) l ++ [o] ++ pr (precOf o.type + 1) r).length)).type ≠ .ASSIGN ∧
-          (tokAt s (s.pos + (pr (precOf o.type) l ++ [o] ++ pr (precOf o.type + 1) r).length)).type ≠ .DOT) →
+          (tokAt s (s.pos + (pr (precOf o.type) l ++ [o] ++ pr (precOf o.type + 1) r).length)).type ≠ .DOT ∧
+          (tokAt s (s.pos + (pr (precOf o.type) l ++ [o] ++ pr (precOf o.type + 1) r).length)).type ≠ .LBRACE) →
         14 + C * rem s ≤ f →
         Kont s (pr (precOf o.type) l ++ [o] ++ pr (precOf o.type + 1) r).length q (PE.bin o lp rp l r).toExpr Q →
         OK (parseExpression f q) s Q := by
@@ -364,7 +615,7 @@ theorem main (e : PE) : ∀ (q p : Nat) (s : PS) (f : Nat) (Q : Option Expr → 
             simp only [at_pos, tokAt_at]
             rw [show s.pos + (pr (precOf o.type) l).length + 1 + (pr (precOf o.type + 1) r).length
                   = s.pos + ((pr (precOf o.type) l).length + 1 + (pr (precOf o.type + 1) r).length) by omega]
-            exact edge_of_le r _ (precOf o.type) _ hwr (infix_prec_le hfn) hnt.1 hnt.2.1 hnt.2.2 (fun o2 _ _ _ _ _ hnp => by omega)
+            exact edge_of_le r _ (precOf o.type) _ hwr (infix_prec_le hfn) hnt.1 hnt.2.1 hnt.2.2.1 hnt.2.2.2 (fun o2 _ _ _ _ _ hnp => by omega)
           · rw [rem_at]; simp only [C] at hf1 ⊢; omega
           · -- continuation after r: the loop stops, the node is built, the outer loop goes on
             intro f2 hf2
@@ -382,7 +633,7 @@ theorem main (e : PE) : ∀ (q p : Nat) (s : PS) (f : Nat) (Q : Option Expr → 
               exact this
       · -- edge for l: the next token is `o`
         rw [hato]
-        exact edge_of_le l _ (precOf o.type) _ hwl (infix_prec_le hfn) (Nat.le_refl _) (infix_ne_assign hfn) (infix_ne_dot hfn) (fun o1 _ _ _ _ _ hnp => by omega)
+        exact edge_of_le l _ (precOf o.type) _ hwl (infix_prec_le hfn) (Nat.le_refl _) (infix_ne_assign hfn) (infix_ne_dot hfn) (infix_ne_lbrace hfn) (fun o1 _ _ _ _ _ hnp => by omega)
     intro hqp hqP eo hat hedge hf K
     by_cases hp : precOf o.type < p
     · -- parenthesised:  lp  l o r  rp
@@ -409,7 +660,7 @@ theorem main (e : PE) : ∀ (q p : Nat) (s : PS) (f : Nat) (Q : Option Expr → 
         · simp only [at_pos, tokAt_at]
           rw [hrpt, hrp]
           have hlo : precOf TT.RPAREN = Gen.LOWEST := by decide
-          exact ⟨by rw [hlo]; omega, by decide, by decide⟩
+          exact ⟨by rw [hlo]; omega, by decide, by decide, by decide⟩
         · rw [rem_at]; simp only [rem, C] at hf ⊢; omega
         · intro f1 hf1
           simp only [at_pos, at_at] at hf1 ⊢
@@ -437,6 +688,8 @@ theorem main (e : PE) : ∀ (q p : Nat) (s : PS) (f : Nat) (Q : Option Expr → 
       simp only [edge, if_neg hp] at hedge
       exact body q0 s0 f0 Q0 (by omega) hqP eo hat hedge hf K
   | pre o r ih =>
+    refine ⟨?_, fun s f acc Q h => by simp [PE.WFA] at h⟩
+    have ih := ih.1
     intro q p s f Q hwf hqp hqP eo hat hedge hf K
     obtain ⟨hfn, hwr⟩ := hwf
     simp only [pr] at hat K
@@ -478,6 +731,9 @@ theorem main (e : PE) : ∀ (q p : Nat) (s : PS) (f : Nat) (Q : Option Expr → 
           exact this
 
   | idx lb rb l i ihl ihi =>
+    refine ⟨?_, fun s f acc Q h => by simp [PE.WFA] at h⟩
+    have ihl := ihl.1
+    have ihi := ihi.1
     intro q p s f Q hwf hqp hqP eo hat hedge hf K
     obtain ⟨hlb, hrb, hpost, hwl, hwi⟩ := hwf
     simp only [pr] at hat K
@@ -524,7 +780,7 @@ theorem main (e : PE) : ∀ (q p : Nat) (s : PS) (f : Nat) (Q : Option Expr → 
           simp only [at_pos, tokAt_at]
           rw [hatrb]
           exact edge_of_le i _ Gen.LOWEST _ hwi (by decide) (by rw [hrb]; decide) (by rw [hrb]; decide) (by rw [hrb]; decide)
-            (fun o2 _ _ _ _ _ hnp => by omega)
+            (by rw [hrb]; decide) (fun o2 _ _ _ _ _ hnp => by omega)
         · rw [rem_at]; simp only [C] at hf1 ⊢; omega
         · -- continuation after i: the loop stops at `]`, the node is built, the outer loop goes on
           intro f2 hf2
@@ -558,7 +814,189 @@ theorem main (e : PE) : ∀ (q p : Nat) (s : PS) (f : Nat) (Q : Option Expr → 
               exact this
     · -- edge for l: the next token is `[`
       rw [hatlb]
-      exact edge_post l _ _ hpost (by rw [hlb]; decide) (by rw [hlb]; decide)
+      exact edge_post l _ _ hpost (by rw [hlb]; decide) (by rw [hlb]; decide) (by rw [hlb]; decide)
+
+  | call0 fn lp rp =>
+    refine ⟨?_, fun s f acc Q h => by simp [PE.WFA] at h⟩
+    intro q p s f Q hwf hqp hqP eo hat hedge hf K
+    obtain ⟨hfn, hnd, hlp, hrp⟩ := hwf
+    simp only [pr] at hat K
+    simp only [pr, edge] at hedge
+    have hrange := At_in_range eo hat (by
+        intro t ht
+        exact pr_types (PE.call0 fn lp rp) p ⟨hfn, hnd, hlp, hrp⟩ t (by simpa only [pr] using ht)) (by simp)
+    simp only [List.length_cons, List.length_nil] at hrange K hedge
+    have h0 : tokAt s s.pos = fn := by simpa using hat 0 (by simp)
+    have h1 : tokAt s (s.pos + 1) = lp := by simpa using hat 1 (by simp)
+    have h2 : tokAt s (s.pos + 1 + 1) = rp := by simpa [Nat.add_assoc] using hat 2 (by simp)
+    obtain ⟨g, rfl⟩ : ∃ g, f = g + 4 := ⟨f - 4, by simp only [C] at hf; omega⟩
+    have hQC : q < Gen.CALL := by have : Gen.PREFIX < Gen.CALL := by decide
+                                  omega
+    apply atom_step (f := g + 2)
+    · rw [h0]; exact atomOf_ident fn hfn
+    · rw [h1, hlp]; decide
+    · apply call_step (f := g + 1) (fn := fn) (hfn := hnd)
+      · rw [h1]; exact hlp
+      · exact hQC
+      · apply exprList_empty
+        · show (tokAt s (s.pos + 1 + 1)).type = TT.RPAREN
+          rw [h2]; exact hrp
+        · refine ⟨?_, ?_, ?_⟩
+          · show ((tokAt s (s.pos + 1 + 1 + 1)).type == TT.LBRACE) = false
+            have := hedge.2
+            rw [show s.pos + 1 + 1 + 1 = s.pos + (0 + 1 + 1 + 1) by omega]
+            simpa using this
+          · show ((tokAt s (s.pos + 1 + 1 + 1)).type == TT.DOT) = false
+            have := hedge.1
+            rw [show s.pos + 1 + 1 + 1 = s.pos + (0 + 1 + 1 + 1) by omega]
+            simpa using this
+          · have := K (g + 2) (by rw [rem_at]; simp only [rem, C] at hf ⊢; omega)
+            rw [h1]
+            simpa [PE.toExpr, PS.at, Nat.add_assoc] using this
+  | call fn lp rp a iha =>
+    refine ⟨?_, fun s f acc Q h => by simp [PE.WFA] at h⟩
+    have iha := iha.2
+    intro q p s f Q hwf hqp hqP eo hat hedge hf K
+    obtain ⟨hfn, hnd, hlp, hrp, hwa⟩ := hwf
+    simp only [pr] at hat K
+    simp only [pr, edge] at hedge
+    have La := List.length_pos_iff.mpr (pr_ne_nil 0 a)
+    have hrange := At_in_range eo hat (by
+        intro t ht
+        exact pr_types (PE.call fn lp rp a) p ⟨hfn, hnd, hlp, hrp, hwa⟩ t (by simpa only [pr] using ht)) (by simp)
+    simp only [List.length_append, List.length_cons, List.length_nil] at hrange K hedge
+    have h0 : tokAt s s.pos = fn := by
+      have := hat 0 (by simp)
+      simpa using this
+    have h1 : tokAt s (s.pos + 1) = lp := by
+      have := hat 1 (by simp)
+      simpa using this
+    have hata : At s (s.pos + 1 + 1) (pr 0 a) := by
+      have := At_append_right (At_append_left hat)
+      simpa [Nat.add_assoc] using this
+    have hrpt : tokAt s (s.pos + 1 + 1 + (pr 0 a).length) = rp := by
+      have := At_append_right hat 0 (by simp)
+      simp only [List.length_append, List.length_cons, List.length_nil, List.getElem_cons_zero, Nat.add_zero] at this
+      rw [← this]; congr 1; omega
+    obtain ⟨g, rfl⟩ : ∃ g, f = g + 4 := ⟨f - 4, by simp only [C] at hf; omega⟩
+    have hQC : q < Gen.CALL := by have : Gen.PREFIX < Gen.CALL := by decide
+                                  omega
+    obtain ⟨t0, rest0, ht0, hne0⟩ := pr_head a 0 (Or.inr hwa)
+    have hfirst : tokAt s (s.pos + 1 + 1) = t0 := by
+      have := hata 0 (by rw [ht0]; simp)
+      simpa [ht0] using this
+    apply atom_step (f := g + 2)
+    · rw [h0]; exact atomOf_ident fn hfn
+    · rw [h1, hlp]; decide
+    · apply call_step (f := g + 1) (fn := fn) (hfn := hnd)
+      · rw [h1]; exact hlp
+      · exact hQC
+      · apply exprList_nonempty
+        · show (tokAt s (s.pos + 1 + 1)).type ≠ TT.RPAREN
+          rw [hfirst]; exact hne0
+        · show OK (parseExpression g Gen.LOWEST >>= fun e => exprListLoop g ([] ++ [e])) (s.at (s.pos + 1 + 1)) _
+          apply iha (s.at (s.pos + 1 + 1)) g [] _ hwa (show EofOK (s.at _) from eo) hata
+          · simp only [at_pos, tokAt_at]
+            rw [hrpt, hrp]
+            exact ⟨by decide, by decide, by decide, by decide, by decide⟩
+          · rw [rem_at]; simp only [rem, C] at hf ⊢; omega
+          · simp only [at_pos, at_at, tokAt_at, List.nil_append]
+            have hpk : s.pos + 1 + 1 + (pr 0 a).length - 1 + 1 = s.pos + 1 + 1 + (pr 0 a).length := by omega
+            refine ⟨?_, ?_, ?_, ?_⟩
+            · rw [hpk, hrpt, hrp]; rfl
+            · rw [hpk]
+              have h' : ((tokAt s (s.pos + (0 + 1 + 1 + (pr 0 a).length + 1))).type == TT.LBRACE) = false := by
+                simpa using hedge.2
+              rw [show s.pos + 1 + 1 + (pr 0 a).length + 1 = s.pos + (0 + 1 + 1 + (pr 0 a).length + 1) by omega]
+              exact h'
+            · rw [hpk]
+              have h' : ((tokAt s (s.pos + (0 + 1 + 1 + (pr 0 a).length + 1))).type == TT.DOT) = false := by
+                simpa using hedge.1
+              rw [show s.pos + 1 + 1 + (pr 0 a).length + 1 = s.pos + (0 + 1 + 1 + (pr 0 a).length + 1) by omega]
+              exact h'
+            · have := K (g + 2) (by rw [rem_at]; simp only [rem, C] at hf ⊢; omega)
+              rw [h1]
+              rw [show s.pos + (0 + 1 + 1 + (pr 0 a).length + 1) - 1 = s.pos + 1 + 1 + (pr 0 a).length by omega] at this
+              rw [hpk]
+              exact this
+  | aone e ih =>
+    refine ⟨fun q p s f Q h => by simp [PE.WF] at h, ?_⟩
+    have ih := ih.1
+    intro s f acc Q hwa eo hat hnt hf hQ
+    simp only [PE.WFA] at hwa
+    simp only [pr] at hat hnt hQ
+    simp only [PE.toArgs] at hQ
+    have Le := pr_len_pos (Gen.LOWEST + 1) e
+    obtain ⟨f', rfl⟩ : ∃ f', f = f' + 1 := ⟨f - 1, by simp only [C] at hf; omega⟩
+    simp only [OK_bind]
+    apply ih Gen.LOWEST (Gen.LOWEST + 1) s (f' + 1) _ hwa (by omega) (by decide) eo hat
+    · exact edge_of_le e _ Gen.LOWEST _ hwa (by decide) (by rw [hnt.2.1]; exact Nat.le_refl _) hnt.2.2.1 hnt.2.2.2.1 hnt.2.2.2.2
+        (fun o _ _ _ _ _ hnp => by omega)
+    · simp only [C] at hf ⊢; omega
+    · intro f1 hf1
+      rw [rem_at] at hf1
+      obtain ⟨h1, rfl⟩ : ∃ h1, f1 = h1 + 1 := ⟨f1 - 1, by simp only [C] at hf1; omega⟩
+      have hpk : s.pos + (pr (Gen.LOWEST + 1) e).length - 1 + 1 = s.pos + (pr (Gen.LOWEST + 1) e).length := by omega
+      apply loop_stops
+      · simp only [tokAt_at, at_pos]
+        rw [hpk, hnt.2.1]; exact Nat.le_refl _
+      · apply exprLoop_stops
+        · simp only [tokAt_at, at_pos]
+          rw [hpk]; exact hnt.1
+        · exact hQ
+  | acons e c r ihe ihr =>
+    refine ⟨fun q p s f Q h => by simp [PE.WF] at h, ?_⟩
+    have ihe := ihe.1
+    have ihr := ihr.2
+    intro s f acc Q hwa eo hat hnt hf hQ
+    simp only [PE.WFA] at hwa
+    obtain ⟨hwe, hc, hwr⟩ := hwa
+    simp only [pr] at hat hnt hQ
+    simp only [PE.toArgs] at hQ
+    have Le := pr_len_pos (Gen.LOWEST + 1) e
+    have Lr := List.length_pos_iff.mpr (pr_ne_nil 0 r)
+    have hrange := At_in_range eo hat (by
+        intro t ht
+        exact pr_types' (PE.acons e c r) 0 (Or.inr ⟨hwe, hc, hwr⟩) t (by simpa only [pr] using ht)) (by simp)
+    simp only [List.length_append, List.length_cons, List.length_nil] at hrange hnt hQ
+    have hate : At s s.pos (pr (Gen.LOWEST + 1) e) := At_append_left (At_append_left hat)
+    have hatc : tokAt s (s.pos + (pr (Gen.LOWEST + 1) e).length) = c := by
+      have := At_append_right (At_append_left hat) 0 (by simp)
+      simpa using this
+    have hatr : At s (s.pos + (pr (Gen.LOWEST + 1) e).length + 1) (pr 0 r) := by
+      have := At_append_right hat
+      simpa [Nat.add_assoc] using this
+    obtain ⟨f', rfl⟩ : ∃ f', f = f' + 2 := ⟨f - 2, by simp only [C] at hf; omega⟩
+    simp only [OK_bind]
+    apply ihe Gen.LOWEST (Gen.LOWEST + 1) s (f' + 2) _ hwe (by omega) (by decide) eo hate
+    · rw [hatc]
+      exact edge_of_le e _ Gen.LOWEST _ hwe (by decide) (by rw [hc]; decide) (by rw [hc]; decide) (by rw [hc]; decide)
+        (by rw [hc]; decide) (fun o _ _ _ _ _ hnp => by omega)
+    · simp only [C] at hf ⊢; omega
+    · intro f1 hf1
+      rw [rem_at] at hf1
+      obtain ⟨h1, rfl⟩ : ∃ h1, f1 = h1 + 1 := ⟨f1 - 1, by simp only [C] at hf1; omega⟩
+      have hpk : s.pos + (pr (Gen.LOWEST + 1) e).length - 1 + 1 = s.pos + (pr (Gen.LOWEST + 1) e).length := by omega
+      apply loop_stops
+      · simp only [tokAt_at, at_pos]
+        rw [hpk, hatc, hc]; decide
+      · apply exprLoop_comma
+        · simp only [tokAt_at, at_pos]
+          rw [hpk, hatc]; exact hc
+        · show OK (parseExpression (f' + 1) Gen.LOWEST >>= fun x => exprListLoop (f' + 1) (acc ++ [some e.toExpr] ++ [x]))
+            (s.at (s.pos + (pr (Gen.LOWEST + 1) e).length - 1 + 1 + 1)) Q
+          rw [show s.pos + (pr (Gen.LOWEST + 1) e).length - 1 + 1 + 1 = s.pos + (pr (Gen.LOWEST + 1) e).length + 1 by omega]
+          apply ihr (s.at (s.pos + (pr (Gen.LOWEST + 1) e).length + 1)) (f' + 1) (acc ++ [some e.toExpr]) Q hwr
+            (show EofOK (s.at _) from eo) hatr
+          · simp only [at_pos, tokAt_at]
+            rw [show s.pos + (pr (Gen.LOWEST + 1) e).length + 1 + (pr 0 r).length
+                  = s.pos + ((pr (Gen.LOWEST + 1) e).length + 1 + (pr 0 r).length) by omega]
+            exact hnt
+          · rw [rem_at]; simp only [rem, C] at hf ⊢; omega
+          · simp only [at_pos, at_at]
+            rw [show s.pos + (pr (Gen.LOWEST + 1) e).length + 1 + (pr 0 r).length - 1
+                  = s.pos + ((pr (Gen.LOWEST + 1) e).length + 1 + (pr 0 r).length) - 1 by omega]
+            simpa [List.append_assoc] using hQ
 
 /-- THEOREM C (Pratt round trip on the parser model). Any expression tree over atoms and binary operators,
     printed with the minimal parentheses that precedence and LEFT associativity require and followed by any
@@ -569,11 +1007,12 @@ theorem parse_print (e : PE) (s : PS) (f : Nat) (hwf : e.WF) (eo : EofOK s)
     (hnext : precOf (tokAt s (s.pos + (pr (Gen.LOWEST + 1) e).length)).type = Gen.LOWEST)
     (hna : (tokAt s (s.pos + (pr (Gen.LOWEST + 1) e).length)).type ≠ .ASSIGN)
     (hnd : (tokAt s (s.pos + (pr (Gen.LOWEST + 1) e).length)).type ≠ .DOT)
+    (hnb : (tokAt s (s.pos + (pr (Gen.LOWEST + 1) e).length)).type ≠ .LBRACE)
     (hf : 14 + C * rem s ≤ f) :
     parseExpression f Gen.LOWEST s = .ok (some e.toExpr, s.at (s.pos + (pr (Gen.LOWEST + 1) e).length - 1)) := by
-  have := main e Gen.LOWEST (Gen.LOWEST + 1) s f
+  have := (main_both e).1 Gen.LOWEST (Gen.LOWEST + 1) s f
     (fun r s' => r = some e.toExpr ∧ s' = s.at (s.pos + (pr (Gen.LOWEST + 1) e).length - 1)) hwf (by omega) (by decide) eo hat
-    (edge_of_le e _ Gen.LOWEST _ hwf (by decide) (by rw [hnext]; exact Nat.le_refl _) hna hnd (fun o _ _ _ _ _ hnp => by omega)) hf
+    (edge_of_le e _ Gen.LOWEST _ hwf (by decide) (by rw [hnext]; exact Nat.le_refl _) hna hnd hnb (fun o _ _ _ _ _ hnp => by omega)) hf
     (by
       intro f1 hf1
       rw [rem_at] at hf1
